@@ -137,10 +137,13 @@ class Contract:
         self.invariants = {}  # loop id -> [(name, expr)]
         self.ghost_sets = []  # (objexpr, field, expr)
         self.after_loop = {}  # loop id -> [(name, expr)] asserted (checked, then assumed) at the loop's normal exit
+        self.axioms = []  # (name, expr): theory facts assumed in this unit
+        self.asserts = {}  # normalised statement source -> [(name, expr)]
         self.uses = {}  # callee target -> clause names assumed at call sites (dropping hypotheses is sound)
         self.allocates = []  # classes of which the function may allocate new objects
         self.comp_elt = None  # element type of the list comprehension the function returns
         self.reveals = []  # opaque specification functions whose definition this unit may use
+        self.using = {}  # ensures clause -> earlier clauses of this contract used as lemmas for it
         self.findings = {}  # clause name -> (finding id, case expr)
         self.assume_only = False  # external/trusted contract: never verified
         self.pure = False
@@ -185,6 +188,8 @@ class Contract:
                     ast.copy_location(expr, a[-1])
                     ast.fix_missing_locations(expr)
                 self.ensures.append((nm, expr))
+                if "using" in kw:
+                    self.using[nm] = [x.value for x in kw["using"].elts]
             elif fn == "modifies":
                 self.modifies.append((a[0], [x.value for x in a[1:]]))
             elif fn == "raises":
@@ -209,6 +214,13 @@ class Contract:
                 self.assume_only = True
                 if a:
                     self.notes.append(a[0].value)
+            elif fn == "axiom":
+                # a valid fact of the underlying theories that the solvers do not derive on their own: assumed when
+                # this unit is verified (not a precondition), listed in the evidence
+                self.axioms.append((a[0].value, a[1]))
+            elif fn == "assert_at":
+                # assert_at("<statement source>", name, expr): checked, then assumed, right before the statement
+                self.asserts.setdefault(" ".join(a[0].value.split()), []).append((a[1].value, a[2]))
             elif fn == "uses":
                 # at this function's call sites of a[0], only the named postcondition clauses are assumed
                 self.uses[a[0].value] = set(x.value for x in a[1:])
@@ -238,6 +250,7 @@ class Lemma:
         self.props = props
         self.params = [(a.arg, _ann(a)) for a in node.args.args]
         self.assumes = []
+        self.reveals = []
         self.proves = []
         self.let = []
         for st in node.body:
@@ -248,7 +261,9 @@ class Lemma:
                 continue
             call = st.value
             fn = call.func.id
-            if fn == "assume":
+            if fn == "reveal":
+                self.reveals.extend(x.value for x in call.args)
+            elif fn == "assume":
                 self.assumes.append(call.args[0])
             elif fn == "prove":
                 self.proves.append((call.args[0].value, call.args[1]))
